@@ -279,6 +279,20 @@ def run(chk, repo, tier):
         ok = ok and len(fl) == 1 and fl[0].bound.get('pixelscale') == du_os and len(f2) == 1 and fl[0].bound.get('data') == f2[0].result
         chk.ob('C09-g', 'D-flow', f.key, f'wavelength=prop_wavelength, sampling=du/oversample, focal length forwarded [{label}]',
                ok, '', f.loc())
+    # shape=None: the whole period of the FFT grid is returned
+    _, dpaths, _ = fft_paths(repo, {'shape': NONE})
+    okd, nd, detd = True, 0, ''
+    for p in returns(dpaths):
+        fsd = p.calls('propagate._fft_shape')
+        em = p.calls('wavefront.Wavefront.empty')
+        if len(fsd) != 1 or len(em) != 1:
+            continue
+        nd += 1
+        grid = nf.index(fsd[0].result, C(0))
+        if not _same_pair(em[0].bound.get('shape'), grid):
+            okd, detd = False, f'output shape {fmt(em[0].bound.get("shape"))[:120]}; the FFT grid is {fmt(grid)[:60]}'
+    chk.ob('C09-g', 'D-flow', f.key, 'without a requested shape the whole FFT grid is returned', (okd and nd > 0) if (nd or not okd) else None,
+           detd or f'{nd} path(s)', f.loc())
     fc = fs_call.bound
     ok = fc.get('dx') in wf_attr('pixelscale') and fc.get('du') == du and fc.get('z') == nf.attr(WF, 'focal_length') and \
         fc.get('wavelength') in wf_attr('wavelength') and fc.get('oversample') == osf
